@@ -24,10 +24,10 @@ from vf import mc_common as mc
 from vf.core import MachineryError, exc_record
 
 META = {
-    "ready": False,
+    "ready": True,
     "category": "model_checking",
     "technique": "TLA+ reference model of save_model/load_model (ModelCacheRT.tla) checked by TLC for every program of a bounded family (oracle mode); every program rendered to Modelica and run through transfer_model (cache; codegen on a subset), loaded model compared with the fresh compile",
-    "text": "TLC enumerates the program family (quick 288, thorough 4068 programs: 3 representation kinds for each of 4 attributes of a state and of an alias partner, 3 alias relations, 6 delay-duration dependency patterns, 4 option sets, typed variables, string parameter, output), checks RoundTrip and NoMXPickled on the abstract Save/Load and prints each program with the predicted dependency classification; each program is compiled, cached and reloaded by the real transfer_model and the CachedModel is compared with the fresh Model on every observable the property names; codegen (shared libraries) is exercised on one program per feature class.",
+    "text": "TLC enumerates the program family (quick 192, thorough 4068 programs: 3 representation kinds for each of 4 attributes of a state and of an alias partner, 3 alias relations, 6 delay-duration dependency patterns, 4 option sets, typed variables, string parameter, output), checks RoundTrip and NoMXPickled on the abstract Save/Load and prints each program with the predicted dependency classification; each program is compiled, cached and reloaded by the real transfer_model and the CachedModel is compared with the fresh Model on every observable the property names; codegen (shared libraries) is exercised on one program per feature class.",
     "note": "Trusted: TLC, the renderer (features -> Modelica text, no expected values), vf/mc_common.project/compare. Attribute values are compared at 3 integer parameter vectors and functions at 3 integer points (no floating-point accuracy claims). Not in the family: attributes depending on constants without replace_constant_values (the metadata function cannot be built - a Model limitation, not a cache one), array-valued parameter-dependent attributes, replace_parameter_values together with parameter-dependent delay durations.",
     "design_ref": "DESIGN.md section 6, C19",
 }
